@@ -95,13 +95,16 @@ Definition same_tree (f g : fstree) : bool :=
 Definition under_any (vs : list bytes) (p : list bytes) : bool :=
   existsb (fun v => under [v] p) vs.
 
-Definition spec_ok_clean (running : option bytes) (n : nat) (keep_attic : bool)
+(* [inv]: the invocations of [f], newest first.  WHICH order "newest first" is
+   is left to the caller: [spec_ok_clean] below takes name order, the only
+   order a tree carries; [spec_ok_clean_age] takes the order of creation from
+   whoever knows it *)
+Definition spec_ok_clean_on (inv : list bytes) (running : option bytes) (n : nat) (keep_attic : bool)
     (exit : N) (f g : fstree) : bool :=
   (exit =? 0) &&
   match n with
   | O => same_tree f g
   | S _ =>
-      let inv := invocations_desc f in
       let kept := kept_of inv running n in
       let vict := filter (fun v => negb (memb v kept)) inv in
       (* kept set: exactly these invocation directories are still in the root *)
@@ -139,3 +142,21 @@ Definition spec_ok_clean (running : option bytes) (n : nat) (keep_attic : bool)
         forallb (fun e => negb (under [name_attic] (f_path e)) || ent_in e g) f &&
         forallb (fun e => negb (under [name_attic] (f_path e)) || ent_in e f) g
   end.
+
+Definition spec_ok_clean (running : option bytes) (n : nat) (keep_attic : bool)
+    (exit : N) (f g : fstree) : bool :=
+  spec_ok_clean_on (invocations_desc f) running n keep_attic exit f g.
+
+(* the property read with "newest" = most recently created: [ages] lists the
+   invocations of [f] by age, newest first (the harness knows in which order it
+   made them; the C17 history knows in which order they were born) *)
+Definition same_names (a b : list bytes) : bool :=
+  forallb (fun v => memb v b) a && forallb (fun v => memb v a) b && Nat.eqb (length a) (length b).
+
+Definition spec_ok_clean_age (ages : list bytes) (running : option bytes) (n : nat) (keep_attic : bool)
+    (exit : N) (f g : fstree) : bool :=
+  same_names ages (invocations_desc f) && spec_ok_clean_on ages running n keep_attic exit f g.
+
+(* [ages] lists the invocations of [f], each once *)
+Definition age_list (f : fstree) (ages : list bytes) : Prop :=
+  (forall v, In v ages <-> invocation f v) /\ NoDup ages.
